@@ -155,6 +155,8 @@ vh::Outcome run_trigger(const vh::Case& c) {
     long last_act_call = init_active ? 0 : -1;       // call step of the latest activate() that the model says succeeds
     long last_tr_call = -1;                          // call step of the latest trigger()/reset()
     bool lbl_probe = false, lbl_second = false;
+    struct CtlRec { long call, ret; TvModel after; };
+    std::vector<CtlRec> ctl_log;                     // main controller calls with the model state after each
     int tr_in_flight = 0; long last_tr_ret = -1;     // trigger()/reset() calls of any thread: in flight now / latest return step
     int sec_in_flight = 0; long sec_last_ret = -1;   // second triggerer: the model's T bit is exact only if none of its calls can have landed after the last activation
     out.res = vrt::run(c.sched, [&] {
@@ -170,11 +172,13 @@ vh::Outcome run_trigger(const vh::Case& c) {
                 ctl_in_flight = true;
                 if (k == K_ACTIVATE) { n_activate_called++; if (!cur.A) last_act_call = vrt::now_step(); } else { if (k == K_TRIGGER) n_trigger_called++; else n_reset_called++; last_tr_call = vrt::now_step(); }
                 bool exp = apply(cur, k);       // model is updated at call time; waiters abstain while a call is in flight
+                ctl_log.push_back(CtlRec{vrt::now_step(), -1, cur});
                 bool got = true;
                 if (k != K_ACTIVATE) tr_in_flight++;
                 if (k == K_ACTIVATE) got = tv.activate(); else if (k == K_TRIGGER) got = tv.trigger(); else tv.reset();
                 if (k != K_ACTIVATE) { tr_in_flight--; last_tr_ret = vrt::now_step(); }
                 ctl_in_flight = false;
+                ctl_log.back().ret = vrt::now_step();
                 if (k == K_TRIGGER && exp) trig_ret[i] = vrt::now_step();
                 if (k != K_RESET && got != exp) vrt::fail("controller-result", std::string(k == K_ACTIVATE ? "activate" : "trigger") + "() returned " + (got ? "true" : "false") + ", model says " + (exp ? "true" : "false"));
                 if (tv.isActive() != cur.A) vrt::fail("controller-state", "isActive() disagrees with the model after a controller call");
@@ -202,6 +206,15 @@ vh::Outcome run_trigger(const vh::Case& c) {
                 }
             });
         }
+        // model state at a given step, if no controller call was in flight at that step (else abstain)
+        auto state_at = [&](long step, TvModel& out_m) -> bool {
+            TvModel m; m.A = init_active;
+            for (auto& r : ctl_log) {
+                if (r.call <= step && (r.ret < 0 || r.ret >= step)) return false;     // in flight at `step`
+                if (r.ret >= 0 && r.ret < step) m = r.after;
+            }
+            out_m = m; return true;
+        };
         for (size_t i = 1; i < c.fibers.size(); ++i) {
             if (c.fibers[i].empty() || (second_triggerer && i == 1)) continue;
             vrt::spawn([&, i] {
@@ -236,6 +249,12 @@ vh::Outcome run_trigger(const vh::Case& c) {
                             if (kind == 0) vrt::fail("wait-false", "untimed wait() returned false");
                             if (stable && (!s0.A || s0.T) && n_activate_called == a0)
                                 vrt::fail("timeout-after-event", "wait_for returned false although the variable was inactive or already triggered and was not re-activated");
+                            // the event happened *during* the wait: at the moment the wait was declared timed out the trigger had already returned
+                            { TvModel mt; long ts = vrt::me().last_timeout_step;
+                              if (ts >= 0 && !second_triggerer && state_at(ts, mt) && (!mt.A || mt.T)) {
+                                  bool reactivated = false; for (auto& r : ctl_log) if (r.call >= ts && r.after.A && !r.after.T) reactivated = true;
+                                  if (!reactivated) vrt::fail("timeout-after-event", "wait_for returned false although trigger()/reset() had completed before the wait gave up");
+                              } }
                         }
                     } else {
                         bool r = true;
@@ -250,6 +269,11 @@ vh::Outcome run_trigger(const vh::Case& c) {
                             lbl_timeout = true;
                             if (stable && s0.A && n_reset_called == r0)
                                 vrt::fail("timeout-after-event", "wait_forActivation returned false although the variable was active and not reset");
+                            { TvModel mt; long ts = vrt::me().last_timeout_step;
+                              if (ts >= 0 && state_at(ts, mt) && mt.A) {
+                                  bool reset_later = false; for (auto& r : ctl_log) if (r.call >= ts && !r.after.A) reset_later = true;
+                                  if (!reset_later) vrt::fail("timeout-after-event", "wait_forActivation returned false although activate() had completed before the wait gave up");
+                              } }
                         }
                     }
                 }
